@@ -210,6 +210,10 @@ struct Sub {
     mode: GroupMode,
     max_keys: usize,
     opts: Vec<Vec<Option<f64>>>,
+    /// smallest key-set size enumerated here (smaller sets are covered by another sub-space)
+    min_keys: usize,
+    /// keep only group configurations in which some master uses this pattern on some side
+    must_use: Option<u8>,
 }
 
 /// value x presence options: every value on every non-empty subset of masters
@@ -228,6 +232,14 @@ fn o(v: &[Option<f64>]) -> Vec<Option<f64>> {
 }
 
 fn group_configs(sub: &Sub) -> Vec<Vec<(u8, u8)>> {
+    let mut v = group_configs_all(sub);
+    if let Some(p) = sub.must_use {
+        v.retain(|cfg| cfg.iter().any(|(a, b)| *a == p || *b == p));
+    }
+    v
+}
+
+fn group_configs_all(sub: &Sub) -> Vec<Vec<(u8, u8)>> {
     let n = sub.ms.n();
     let pp: Vec<(u8, u8)> = sub.patterns.iter().flat_map(|a| sub.patterns.iter().map(|b| (*a, *b))).collect();
     let mut out: Vec<Vec<(u8, u8)>> = vec![];
@@ -330,7 +342,7 @@ fn block_cases(sub: &Sub, cfg: &[(u8, u8)], count_only: bool) -> (Vec<Case>, u64
             }
         }
     }
-    for k in 1..=sub.max_keys {
+    for k in sub.min_keys..=sub.max_keys {
         rec(sub, cfg, &per_key, 0, k, &mut vec![], &mut out, &mut count, count_only);
     }
     (out, count)
@@ -344,6 +356,8 @@ fn spaces(tier: Tier) -> Vec<Sub> {
         Tier::Quick => {
             // the cascade under identical groups, two masters
             v.push(Sub {
+                min_keys: 1,
+                must_use: None,
                 name: "ends/uniform/2keys",
                 ms: MasterSet::Ends,
                 patterns: &[0, 1, 2, 3],
@@ -361,15 +375,19 @@ fn spaces(tier: Tier) -> Vec<Sub> {
             let mut one = opts_product(2, &V4);
             one.push(o(&[s(-50.0), s(30.0)]));
             v.push(Sub {
+                min_keys: 1,
+                must_use: None,
                 name: "ends/independent/1key",
                 ms: MasterSet::Ends,
-                patterns: &[0, 1, 2, 3],
+                patterns: &[0, 2, 3],
                 mode: GroupMode::Independent,
                 max_keys: 1,
                 opts: one,
             });
             // two keys while one side's groups differ between the masters
             v.push(Sub {
+                min_keys: 2,
+                must_use: None,
                 name: "ends/one-side-divergent/2keys",
                 ms: MasterSet::Ends,
                 patterns: &[0, 2, 3],
@@ -381,6 +399,8 @@ fn spaces(tier: Tier) -> Vec<Sub> {
             let mut mid = opts_product(3, &[-50.0, 12.5]);
             mid.push(o(&[s(-50.0), s(-10.0), s(30.0)]));
             v.push(Sub {
+                min_keys: 1,
+                must_use: None,
                 name: "ends+mid/uniform/1key",
                 ms: MasterSet::EndsMid,
                 patterns: &[0, 1, 2, 3],
@@ -389,6 +409,8 @@ fn spaces(tier: Tier) -> Vec<Sub> {
                 opts: mid,
             });
             v.push(Sub {
+                min_keys: 1,
+                must_use: None,
                 name: "ends+mid/uniform/2keys",
                 ms: MasterSet::EndsMid,
                 patterns: &[0, 2, 3],
@@ -401,6 +423,8 @@ fn spaces(tier: Tier) -> Vec<Sub> {
                 ],
             });
             v.push(Sub {
+                min_keys: 1,
+                must_use: None,
                 name: "ends+mid/one-master-deviates/1key",
                 ms: MasterSet::EndsMid,
                 patterns: &[0, 2, 3],
@@ -418,14 +442,34 @@ fn spaces(tier: Tier) -> Vec<Sub> {
             let mut full2 = opts_product(2, &V4);
             full2.push(o(&[s(-50.0), s(30.0)]));
             v.push(Sub {
+                min_keys: 1,
+                must_use: None,
                 name: "ends/uniform/2keys",
                 ms: MasterSet::Ends,
-                patterns: &[0, 1, 2, 3, 4],
+                patterns: &[0, 1, 2, 3],
                 mode: GroupMode::Uniform,
                 max_keys: 2,
                 opts: full2.clone(),
             });
             v.push(Sub {
+                min_keys: 1,
+                must_use: Some(4),
+                name: "ends/uniform-with-pattern4/2keys",
+                ms: MasterSet::Ends,
+                patterns: &[0, 2, 4],
+                mode: GroupMode::Uniform,
+                max_keys: 2,
+                opts: vec![
+                    o(&[s(-50.0), s(-50.0)]),
+                    o(&[s(30.0), None]),
+                    o(&[None, s(12.5)]),
+                    o(&[s(0.0), s(0.0)]),
+                    o(&[s(-50.0), s(30.0)]),
+                ],
+            });
+            v.push(Sub {
+                min_keys: 3,
+                must_use: None,
                 name: "ends/uniform/3keys",
                 ms: MasterSet::Ends,
                 patterns: &[0, 1, 2, 3],
@@ -434,6 +478,8 @@ fn spaces(tier: Tier) -> Vec<Sub> {
                 opts: vec![o(&[s(-50.0), s(-50.0)]), o(&[s(30.0), None]), o(&[None, s(12.5)])],
             });
             v.push(Sub {
+                min_keys: 1,
+                must_use: None,
                 name: "ends/independent/1key",
                 ms: MasterSet::Ends,
                 patterns: &[0, 1, 2, 3, 4],
@@ -442,6 +488,8 @@ fn spaces(tier: Tier) -> Vec<Sub> {
                 opts: full2.clone(),
             });
             v.push(Sub {
+                min_keys: 2,
+                must_use: None,
                 name: "ends/independent/2keys",
                 ms: MasterSet::Ends,
                 patterns: &[0, 1, 2, 3],
@@ -455,6 +503,8 @@ fn spaces(tier: Tier) -> Vec<Sub> {
                 ],
             });
             v.push(Sub {
+                min_keys: 2,
+                must_use: None,
                 name: "ends/one-side-divergent/3keys",
                 ms: MasterSet::Ends,
                 patterns: &[0, 2, 3],
@@ -466,6 +516,8 @@ fn spaces(tier: Tier) -> Vec<Sub> {
             mid.push(o(&[s(-50.0), s(-10.0), s(30.0)]));
             for ms in [MasterSet::EndsMid, MasterSet::MinDefMax] {
                 v.push(Sub {
+                min_keys: 1,
+                must_use: None,
                     name: if ms == MasterSet::EndsMid { "ends+mid/uniform/1key" } else { "min-def-max/uniform/1key" },
                     ms,
                     patterns: &[0, 1, 2, 3, 4],
@@ -474,6 +526,8 @@ fn spaces(tier: Tier) -> Vec<Sub> {
                     opts: mid.clone(),
                 });
                 v.push(Sub {
+                min_keys: 2,
+                must_use: None,
                     name: if ms == MasterSet::EndsMid { "ends+mid/uniform/2keys" } else { "min-def-max/uniform/2keys" },
                     ms,
                     patterns: &[0, 1, 2, 3],
@@ -489,6 +543,8 @@ fn spaces(tier: Tier) -> Vec<Sub> {
                     ],
                 });
                 v.push(Sub {
+                    min_keys: if ms == MasterSet::EndsMid { 2 } else { 1 },
+                    must_use: None,
                     name: if ms == MasterSet::EndsMid {
                         "ends+mid/one-master-deviates/2keys"
                     } else {
@@ -506,6 +562,8 @@ fn spaces(tier: Tier) -> Vec<Sub> {
                 });
             }
             v.push(Sub {
+                min_keys: 1,
+                must_use: None,
                 name: "ends+mid/independent/1key",
                 ms: MasterSet::EndsMid,
                 patterns: &[0, 2, 3],
@@ -519,6 +577,8 @@ fn spaces(tier: Tier) -> Vec<Sub> {
                 ],
             });
             v.push(Sub {
+                min_keys: 1,
+                must_use: None,
                 name: "two-axes/uniform/2keys",
                 ms: MasterSet::TwoAxis,
                 patterns: &[0, 2, 3],
@@ -761,6 +821,74 @@ fn pairpos_formats(bytes: &[u8]) -> Result<(usize, usize), String> {
     Ok((f1, f2))
 }
 
+/// The masters (of `model`, indices into `coords`) at which the font must reproduce the rounded master
+/// value EXACTLY, derived from the font's own variation regions and nothing else.
+///
+/// Premise (the one behind the usual 1/2 allowance): the compiler picks real deltas d_r such that
+/// default + sum_r scalar_r(master) * d_r equals the rounded master value at every participating master,
+/// then stores round(d_r). A master M is exact if (a) every region's scalar at M is 0 or 1, (b) exactly
+/// one region peaks at M, and (c) every other region active at M peaks at exactly one other
+/// participating master that is itself exact: then d of M's own region is an integer minus integers, so
+/// nothing is lost to rounding. Anything that does not fit this shape gets the 1/2-per-delta allowance.
+fn exact_masters(
+    regions: &[Vec<(f64, f64, f64)>],
+    coords: &[Vec<f64>],
+    model: &[usize],
+    default: usize,
+) -> BTreeSet<usize> {
+    let scalar = |r: &Vec<(f64, f64, f64)>, at: &Vec<f64>| otvar::ivs::region_scalar(at, r);
+    let peaks_at = |r: &Vec<(f64, f64, f64)>, at: &Vec<f64>| {
+        r.len() == at.len() && r.iter().zip(at).all(|((_, p, _), c)| p == c)
+    };
+    // owner[r] = the one participating master the region peaks at
+    let owner: Vec<Option<usize>> = regions
+        .iter()
+        .map(|r| {
+            let o: Vec<usize> = model.iter().copied().filter(|m| peaks_at(r, &coords[*m])).collect();
+            if o.len() == 1 { Some(o[0]) } else { None }
+        })
+        .collect();
+    fn go(
+        m: usize,
+        default: usize,
+        regions: &[Vec<(f64, f64, f64)>],
+        coords: &[Vec<f64>],
+        owner: &[Option<usize>],
+        scalar: &dyn Fn(&Vec<(f64, f64, f64)>, &Vec<f64>) -> f64,
+        visiting: &mut Vec<usize>,
+    ) -> bool {
+        let s: Vec<f64> = regions.iter().map(|r| scalar(r, &coords[m])).collect();
+        if m == default {
+            return s.iter().all(|x| *x == 0.0);
+        }
+        if visiting.contains(&m) || s.iter().any(|x| *x != 0.0 && *x != 1.0) {
+            return false;
+        }
+        let own: Vec<usize> = (0..regions.len()).filter(|r| owner[*r] == Some(m)).collect();
+        if own.len() != 1 || s[own[0]] != 1.0 {
+            return false;
+        }
+        visiting.push(m);
+        let mut ok = true;
+        for r in 0..regions.len() {
+            if s[r] == 0.0 || r == own[0] {
+                continue;
+            }
+            ok &= match owner[r] {
+                Some(o) if o != m => go(o, default, regions, coords, owner, scalar, visiting),
+                _ => false,
+            };
+        }
+        visiting.pop();
+        ok
+    }
+    model
+        .iter()
+        .copied()
+        .filter(|m| go(*m, default, regions, coords, &owner, &scalar, &mut vec![]))
+        .collect()
+}
+
 const LEVEL_NAMES: [&str; 5] = ["glyph-glyph", "glyph-group", "group-glyph", "group-group", "none(0)"];
 
 /// `fresh`: compile on a thread of its own (deterministic hash keys, ~10x dearer — used to confirm a
@@ -917,16 +1045,16 @@ fn evaluate(d: &Design, fresh: bool) -> EvalOut {
             vf.normalize(&user)
         })
         .collect();
-    // Masters that take part in the kerning model: the default one and every one with kerning. Stored
-    // deltas are integers; the masters' values are rounded before the deltas are computed, so if every
-    // region of the store has scalar 0 or 1 at every participating master, every delta is an integer
-    // combination of rounded master values and the font must be exact. Otherwise each stored delta may be
-    // off by 1/2, weighted by its region's scalar at the location looked at.
+    // Masters that take part in the kerning model: the default one and every one with kerning. The
+    // masters' values are rounded before deltas are computed and the font stores integer deltas, so the
+    // font is exact at a master whenever the deltas it sums there are provably integers (`exact_masters`);
+    // otherwise each stored delta may be off by 1/2, weighted by its region's scalar at the master.
     let model: Vec<usize> = (0..nm).filter(|m| *m == d.default_master || with_kerning.contains(m)).collect();
+    let regions: Vec<Vec<(f64, f64, f64)>> = vf.gdef_store().map(|s| s.regions.clone()).unwrap_or_default();
     let scalars_at = |m: usize| -> Vec<f64> { vf.gdef_store().map(|s| s.region_scalars(&coords[m])).unwrap_or_default() };
-    let all_integral = model.iter().all(|m| scalars_at(*m).iter().all(|s| *s == 0.0 || *s == 1.0));
+    let exact = exact_masters(&regions, &coords, &model, d.default_master);
     let tol_at = |m: usize| -> f64 {
-        if all_integral { 1e-9 } else { 0.5 * scalars_at(m).iter().sum::<f64>() + 1e-6 }
+        if exact.contains(&m) { 1e-9 } else { 0.5 * scalars_at(m).iter().sum::<f64>() + 1e-6 }
     };
 
     let mut mismatches: Vec<Mismatch> = vec![];
@@ -977,7 +1105,7 @@ fn evaluate(d: &Design, fresh: bool) -> EvalOut {
                     if lvl < 4 && (mask >> (lvl + 1)) != 0 {
                         st.comparisons_where_a_higher_level_overrides_a_lower += 1;
                     }
-                    if !all_integral {
+                    if !exact.contains(&m) {
                         st.comparisons_with_fractional_region_scalars += 1;
                     }
                     // a vertical / second-glyph side effect would also be wrong for plain kerning
@@ -1234,6 +1362,7 @@ fn main() {
         let mut samples: Vec<Value> = vec![];
         let mut seen = BTreeSet::new();
         let mut skipped = 0u64;
+        let mut hashes: Vec<(u64, bool)> = vec![];
         let (cases, _) = block_cases(sub, cfg, false);
         for (ci, case) in cases.iter().enumerate() {
             if t0.elapsed().as_secs_f64() > cap_s {
@@ -1241,7 +1370,9 @@ fn main() {
                 continue;
             }
             let d = build_design(case);
+            let h = vcore::hash64(serde_json::to_string(case).unwrap_or_default().as_bytes());
             let mut ev = evaluate(&d, false);
+            hashes.push((h, ev.stats.cases_nontrivial == 1));
             add_stats(&mut stt, &ev.stats);
             if !ev.viol.is_empty() {
                 // confirm under hash keys that are a function of the seed alone (what a replay will see)
@@ -1275,7 +1406,7 @@ fn main() {
                 }
             }
         }
-        (stt, viol, machinery, samples, skipped)
+        (stt, viol, machinery, samples, skipped, hashes)
     });
 
     let mut total_st = Stats::default();
@@ -1283,7 +1414,15 @@ fn main() {
     let mut machinery: Vec<String> = vec![];
     let mut skipped = 0u64;
     let mut per_sub: BTreeMap<String, u64> = BTreeMap::new();
-    for (bi, (stt, viol, mach, s, sk)) in results.into_iter().enumerate() {
+    let mut distinct: std::collections::HashSet<u64> = Default::default();
+    let mut distinct_nontrivial: std::collections::HashSet<u64> = Default::default();
+    for (bi, (stt, viol, mach, s, sk, hashes)) in results.into_iter().enumerate() {
+        for (h, nt) in hashes {
+            distinct.insert(h);
+            if nt {
+                distinct_nontrivial.insert(h);
+            }
+        }
         *per_sub.entry(subs[blocks[bi].0].name.to_string()).or_default() += stt.cases;
         add_stats(&mut total_st, &stt);
         for (k, w, r) in viol {
@@ -1304,11 +1443,13 @@ fn main() {
     samples.truncate(12);
 
     rep.set("evaluations", total_st.cases);
-    rep.set("distinct_nontrivial", total_st.cases_nontrivial);
+    rep.set("distinct_designs", distinct.len());
+    rep.set("distinct_nontrivial", distinct_nontrivial.len());
     rep.set(
         "rule",
-        "distinct generated designs (no two cases are the same design) that built, have at least one master with kerning \
-         and at least one (ordered pair, master) whose reference value is non-zero, all compared against the font's kern feature",
+        "number of distinct (by hash of the case description; sub-spaces may overlap) generated designs that have at least one \
+         master with kerning and at least one (ordered pair, master) whose reference value is non-zero, all built and compared \
+         against the font's kern feature",
     );
     rep.set("exhaustive", skipped == 0);
     if skipped > 0 {
@@ -1335,7 +1476,7 @@ fn main() {
             "key_names_per_side": ["A", "C", "G1", "G2"],
             "sub_space_definitions": subs.iter().filter(|s| only.as_ref().is_none_or(|o| o == s.name)).map(|s| json!({
                 "name": s.name, "masters": s.ms.name(), "patterns": s.patterns, "group_mode": format!("{:?}", s.mode),
-                "max_keys": s.max_keys,
+                "min_keys": s.min_keys, "max_keys": s.max_keys, "must_use_pattern": s.must_use,
                 "per_key_value_options": s.opts.iter().map(|o| o.iter().map(|v| v.map(num).unwrap_or("-".into())).collect::<Vec<_>>().join(",")).collect::<Vec<_>>()
             })).collect::<Vec<_>>(),
         }),
